@@ -170,7 +170,7 @@ char * global_scope_t::prompt_string()
 {
   static char prompt[32];
   std::size_t i;
-  for (i = 0; i < report_stack.size(); i++)
+  for (i = 0; i < report_stack.size() && i < sizeof(prompt) - 2; i++)
     prompt[i] = ']';
   prompt[i++] = ' ';
   prompt[i]   = '\0';
